@@ -42,7 +42,9 @@ const (
 type Node struct {
 	ID    int   `json:"id"`
 	Preds []int `json:"preds"` // increasing; 0 = START
-	Fail  int   `json:"fail,omitempty"` // 0 ok, 1 error, 2 panic
+	Fail  int   `json:"fail,omitempty"` // 0 ok, 1 error, 2 panic, 3 the state post-handler returns an error
+	Pre   bool  `json:"pre,omitempty"`  // the node has a state pre-handler (taskManager.submit runs it: preProcessor)
+	Post  bool  `json:"post,omitempty"` // the node has a state post-handler (taskManager.waitOne runs it: postProcessor)
 	Slow  bool  `json:"slow,omitempty"` // body sleeps 25-40 ms (eager: widen the return window)
 }
 
@@ -133,7 +135,13 @@ type runState struct {
 	starts []int32
 	logMu  chan struct{}
 	log    []exec
+	pre    []int32 // per node id: calls of its state pre-handler
+	post   []int32 // per node id: calls of its state post-handler
+	postNil int32  // post-handler calls that were handed a nil output (the execution had failed)
 }
+
+// hstate is the local state of a graph whose nodes carry state handlers
+type hstate struct{ calls int }
 
 type rsKey struct{}
 
@@ -147,6 +155,7 @@ type runObs struct {
 	collect int
 	wd      time.Duration
 	proto   string // "" or what is wrong with the submit/collect bookkeeping seen in the trace
+	handler string // "" or what is wrong with the calls of the state handlers (pre/post processors)
 }
 
 type built struct {
@@ -204,6 +213,50 @@ func (b *built) body(n *Node) func(ctx context.Context, in map[string]any) (map[
 	}
 }
 
+func (b *built) rsOf(ctx context.Context) *runState {
+	rs, _ := ctx.Value(rsKey{}).(*runState)
+	if rs == nil {
+		rs = b.cur.Load().(*runState)
+	}
+	return rs
+}
+
+// state handlers: identity on the value; they count their calls (the state object too)
+func (b *built) nodeOpts(n *Node) []compose.GraphAddNodeOpt {
+	var opts []compose.GraphAddNodeOpt
+	if n.Pre {
+		opts = append(opts, compose.WithStatePreHandler(func(ctx context.Context, in map[string]any, st *hstate) (map[string]any, error) {
+			st.calls++
+			atomic.AddInt32(&b.rsOf(ctx).pre[n.ID], 1)
+			return in, nil
+		}))
+	}
+	if n.Post {
+		opts = append(opts, compose.WithStatePostHandler(func(ctx context.Context, out map[string]any, st *hstate) (map[string]any, error) {
+			st.calls++
+			rs := b.rsOf(ctx)
+			atomic.AddInt32(&rs.post[n.ID], 1)
+			if out == nil {
+				atomic.AddInt32(&rs.postNil, 1)
+			}
+			if n.Fail == 3 {
+				return nil, errors.New("post-handler failure")
+			}
+			return out, nil
+		}))
+	}
+	return opts
+}
+
+func (c *Case) hasHandlers() bool {
+	for _, n := range c.Nodes {
+		if n.Pre || n.Post {
+			return true
+		}
+	}
+	return false
+}
+
 func build(c *Case) *built {
 	b := &built{c: c, byID: map[int]*Node{}}
 	for i := range c.Nodes {
@@ -220,11 +273,15 @@ func build(c *Case) *built {
 	if p := lib.Recover(func() {
 		switch c.Mode {
 		case "pregel", "dag":
-			g := compose.NewGraph[map[string]any, map[string]any]()
+			var gopts []compose.NewGraphOption
+			if c.hasHandlers() {
+				gopts = append(gopts, compose.WithGenLocalState(func(ctx context.Context) *hstate { return &hstate{} }))
+			}
+			g := compose.NewGraph[map[string]any, map[string]any](gopts...)
 			for i := range c.Nodes {
 				n := &c.Nodes[i]
 				if n.ID != idEnd {
-					if err = g.AddLambdaNode(key(n.ID), compose.InvokableLambda(b.body(n))); err != nil {
+					if err = g.AddLambdaNode(key(n.ID), compose.InvokableLambda(b.body(n)), b.nodeOpts(n)...); err != nil {
 						return
 					}
 				}
@@ -252,14 +309,18 @@ func build(c *Case) *built {
 				b.run = entryOf(c, r)
 			}
 		case "eager":
-			wf := compose.NewWorkflow[map[string]any, map[string]any]()
+			var gopts []compose.NewGraphOption
+			if c.hasHandlers() {
+				gopts = append(gopts, compose.WithGenLocalState(func(ctx context.Context) *hstate { return &hstate{} }))
+			}
+			wf := compose.NewWorkflow[map[string]any, map[string]any](gopts...)
 			for i := range c.Nodes {
 				n := &c.Nodes[i]
 				var wn *compose.WorkflowNode
 				if n.ID == idEnd {
 					wn = wf.End()
 				} else {
-					wn = wf.AddLambdaNode(key(n.ID), compose.InvokableLambda(b.body(n)))
+					wn = wf.AddLambdaNode(key(n.ID), compose.InvokableLambda(b.body(n)), b.nodeOpts(n)...)
 				}
 				for _, p := range n.Preds {
 					wn.AddInput(key(p), compose.MapFields(field(p), field(p)))
@@ -300,7 +361,8 @@ func watchdog() time.Duration {
 }
 
 func (b *built) once(seed uint64, traced bool) *runObs {
-	rs := &runState{seed: seed, state: make([]int32, b.maxID+1), starts: make([]int32, b.maxID+1), logMu: make(chan struct{}, 1)}
+	rs := &runState{seed: seed, state: make([]int32, b.maxID+1), starts: make([]int32, b.maxID+1), logMu: make(chan struct{}, 1),
+		pre: make([]int32, b.maxID+1), post: make([]int32, b.maxID+1)}
 	rs.logMu <- struct{}{}
 	b.cur.Store(rs)
 	compose.VerifC03Begin(seed|1, traced)
@@ -422,6 +484,28 @@ func (b *built) once(seed uint64, traced bool) *runObs {
 	<-rs.logMu
 	o.Log = append([]exec(nil), rs.log...)
 	rs.logMu <- struct{}{}
+	// state handlers (pre/post processors of the task manager): every execution is preceded by exactly
+	// one pre-handler call; the post-handler runs once per collected successful execution, never for a
+	// failed one; a run that returns a value has post-processed every execution that feeds it
+	if o.Class != "hang" {
+		for i := range b.c.Nodes {
+			n := &b.c.Nodes[i]
+			st, pr, po := atomic.LoadInt32(&rs.starts[n.ID]), atomic.LoadInt32(&rs.pre[n.ID]), atomic.LoadInt32(&rs.post[n.ID])
+			switch {
+			case n.Pre && pr != st:
+				o.handler = fmt.Sprintf("node n%d was executed %d time(s), its state pre-handler %d time(s)", n.ID, st, pr)
+			case n.Post && po > st:
+				o.handler = fmt.Sprintf("node n%d was executed %d time(s), its state post-handler %d time(s)", n.ID, st, po)
+			case n.Post && o.Class == "val" && po != st && (b.c.Mode != "eager" || b.anc[n.ID]):
+				o.handler = fmt.Sprintf("the run returned a value; node n%d, which feeds it, was executed %d time(s), its state post-handler %d time(s)", n.ID, st, po)
+			case n.Post && (n.Fail == 1 || n.Fail == 2) && po != 0:
+				o.handler = fmt.Sprintf("the state post-handler of node n%d ran although its execution failed", n.ID)
+			}
+		}
+		if o.handler == "" && atomic.LoadInt32(&rs.postNil) != 0 {
+			o.handler = "a state post-handler was handed the nil output of a failed execution"
+		}
+	}
 	sort.Slice(o.Log, func(i, j int) bool {
 		if o.Log[i].ID != o.Log[j].ID {
 			return o.Log[i].ID < o.Log[j].ID
@@ -610,8 +694,30 @@ func (engine) Generate(r *lib.Rng, tier string, i int) any {
 		}
 	}
 	b := build0(c)
+	// one case in four: state handlers (pre-processor at submit, post-processor at collection) on a third
+	// of the nodes each
+	handlers := r.Chance(1, 4)
+	if handlers {
+		for k := range c.Nodes {
+			if c.Nodes[k].ID != idEnd {
+				c.Nodes[k].Pre = r.Chance(1, 3)
+				c.Nodes[k].Post = r.Chance(1, 3)
+			}
+		}
+	}
+	failKind := func(id int) int {
+		if handlers && r.Chance(1, 2) {
+			for k := range c.Nodes {
+				if c.Nodes[k].ID == id {
+					c.Nodes[k].Post = true
+					return 3 // the body succeeds, the post-handler fails
+				}
+			}
+		}
+		return 1 + r.Intn(2)
+	}
 	// failures
-	if r.Chance(1, 5) {
+	if r.Chance(1, 5) || handlers && r.Chance(1, 3) {
 		var cand, nonAnc []int
 		for _, n := range c.Nodes {
 			if n.ID != idEnd && (c.Mode != "eager" || b[n.ID]) {
@@ -623,10 +729,11 @@ func (engine) Generate(r *lib.Rng, tier string, i int) any {
 		}
 		if len(nonAnc) > 0 && r.Chance(1, 3) {
 			// eager: a failing node that does not feed END races with END (finding F-C03c)
-			setFail(c, nonAnc[r.Intn(len(nonAnc))], 1+r.Intn(2))
+			f := nonAnc[r.Intn(len(nonAnc))]
+			setFail(c, f, failKind(f))
 		} else if len(cand) > 0 {
 			f := cand[r.Intn(len(cand))]
-			kind := 1 + r.Intn(2)
+			kind := failKind(f)
 			setFail(c, f, kind)
 			if r.Chance(1, 4) {
 				// a second failure in the same layer
@@ -634,7 +741,7 @@ func (engine) Generate(r *lib.Rng, tier string, i int) any {
 					if contains(layer, f) {
 						g := layer[r.Intn(len(layer))]
 						if c.Mode != "eager" || b[g] {
-							setFail(c, g, 1+r.Intn(2))
+							setFail(c, g, failKind(g))
 						}
 					}
 				}
@@ -871,7 +978,7 @@ func coqTrace(b *built, evs []compose.VerifC03Event) string {
 				return "BPanic"
 			}
 		}
-		return "BOk"
+		return "BOk" // also Fail == 3: the body succeeds, the post-handler fails after the hand-off
 	}
 	for _, e := range evs {
 		id, _ := nodeNum(e.Key)
@@ -1069,6 +1176,9 @@ func (engine) Run(ci any) lib.Result {
 		if o.proto != "" {
 			fail("collect-bookkeeping", fmt.Sprintf("delay seed %d: %s", seed, o.proto))
 		}
+		if o.handler != "" {
+			fail("handler-bookkeeping", fmt.Sprintf("delay seed %d: %s", seed, o.handler))
+		}
 		if traced {
 			out.Traces++
 			out.Events += len(o.events)
@@ -1144,6 +1254,15 @@ func (engine) Run(ci any) lib.Result {
 	}
 	if failNonAnc {
 		res.Tags = append(res.Tags, "failing-non-ancestor")
+	}
+	if c.hasHandlers() {
+		res.Tags = append(res.Tags, "handlers:yes")
+		for _, n := range c.Nodes {
+			if n.Fail == 3 {
+				res.Tags = append(res.Tags, "failing:post-handler")
+				break
+			}
+		}
 	}
 	maxPar := parallelism(c)
 	res.Tags = append(res.Tags, fmt.Sprintf("par:%d", maxPar))
